@@ -444,6 +444,38 @@ def run(ctx):
     cross_process(ctx, kept)
     caller_names(ctx)
     pinned_search_fields(ctx)
+    same_named_classes(ctx)
+
+
+class _Sersic:  # renamed below: two different user classes called `Sersic` (a light and a mass profile)
+    def __init__(self, centre=0.0, intensity=1.0):
+        self.centre = centre
+        self.intensity = intensity
+
+
+class _SersicMass:
+    def __init__(self, centre=0.0, radius=1.0, ratio=3.0):
+        self.centre = centre
+        self.radius = radius
+        self.ratio = ratio
+
+
+_Sersic.__name__ = _Sersic.__qualname__ = "Sersic"
+_SersicMass.__name__ = _SersicMass.__qualname__ = "Sersic"
+
+
+def same_named_classes(ctx):
+    """what identifies a fixed component is its own class and values, also when another class of the same
+    name was identified earlier in the process"""
+    for first, second, changed in ((_Sersic, _SersicMass, {"ratio": 4.5}), (_SersicMass, _Sersic, {"intensity": 2.5})):
+        ident(af.Collection(light=first(), z=af.UniformPrior(0.0, 1.0)))
+        a = ident(af.Collection(mass=second(), z=af.UniformPrior(0.0, 1.0)))
+        b = ident(af.Collection(mass=second(**changed), z=af.UniformPrior(0.0, 1.0)))
+        ctx.hit("same-named-classes")
+        if a == b:
+            ctx.fail("C07-insensitive-fixed-value", "a fixed value of a component does not change the identifier when a different class "
+                     "of the same name was identified before", {"label": "same-named-classes", "first": first.__init__.__code__.co_varnames[1:],
+                                                               "second": second.__init__.__code__.co_varnames[1:], "changed": changed})
 
 
 def pinned_search_fields(ctx):
@@ -499,5 +531,7 @@ def replay(ctx, payload):
     case = payload.get("case") or payload.get("disagreements", [{}])[0].get("case")
     if isinstance(case.get("program"), list):
         one_case(ctx, case["program"], case.get("search"), case.get("tag"), label="replay")
+    elif case.get("label") == "same-named-classes":
+        same_named_classes(ctx)
     else:
         caller_names(ctx)
